@@ -26,7 +26,8 @@ def check(run):
                 "indented lines, blocks of 2..25 structurally equal (85%) or distinct captioned images in one preformatted line / indented "
                 "lines inside one paragraph (all mis-nested under ONE ancestor: content must be neither lost, re-ordered nor multiplied); "
                 "25% of the documents use named references incl. re-use, the name written in several spellings (blanks around / inside the "
-                "quoted value, quoting style, case, Unicode look-alikes) at definition and use; half of the footnotes hold words, styled "
+                "quoted value, quoting style, case, Unicode look-alikes) at definition and use, every <ref> of such a document with its own "
+                "group attribute (absent 70% / the document's first group / its second group / empty; a name is defined once); half of the footnotes hold words, styled "
                 "words and article links of which 45% go to an article the same footnote links already (other label / same label / no "
                 "label), 20% to one linked elsewhere in the document (body text, other footnotes); on top, exhaustively, 24 small documents: "
                 "one article linked twice, label x label (different / equal / none) x place (one footnote, two footnotes, body + footnote, "
